@@ -10,13 +10,15 @@ from ..engines import sched_strat as SS
 PROPERTY_ID = "C01"
 LEVEL = "exploration"
 RULE = (
-    "E1 (controlled backend): Hypothesis draws a configuration (n_jobs 2..4, batch_size 1/2/3/7/'auto' with drawn sizes <= 8, "
-    "pre_dispatch in {'all', ints, 'n_jobs', '2*n_jobs', '1.5*n_jobs', '3*n_jobs-1', ...}, return_as list|generator, input "
+    "E1 (controlled backend): Hypothesis draws a configuration (n_jobs 2..6, batch_size 1/2/3/7/'auto' with drawn sizes <= 8, "
+    "pre_dispatch in {'all', ints, 'n_jobs', '2*n_jobs', '1.5*n_jobs', '2.5*n_jobs', '0.7*n_jobs', '3*n_jobs-1', ...}, return_as list|generator, input "
     "list|generator|iterator, with/without a with-block), 1-3 consecutive calls with task counts straddling every look-ahead "
     "and batch boundary, and a schedule: which in-flight batch completes next, which batches complete synchronously inside "
     "submit(), and up to 3 gates (inside the input iterator, submit, compute_batch_size, retrieve_result_callback, "
     "batch_completed) at which a thread is held while other batches are completed from other threads.  E2 (real backends): "
-    "the same configuration space on sequential/threading/loky/multiprocessing with drawn task sleeps.  Oracle: results == "
+    "the same configuration space on sequential/threading/loky/multiprocessing with drawn task sleeps, plus a pre-emption stress variant (threading backend, 100-1000 trivial "
+    "tasks, 3-6 calls, large numeric pre_dispatch, interpreter switch interval 1 us, so that the caller is pre-empted between any two bytecodes "
+    "of its dispatch code).  Oracle: results == "
     "[f(*a, **k) for tasks] in order; the tasks' own execution log contains every index exactly once; the batches handed to "
     "submit() concatenate, in submission order, to range(n).  Non-trivial (E1): >= 2 batches and (a completion out of "
     "submission order, or a synchronous completion, or a completion issued while another thread is held at a gate); "
@@ -121,3 +123,4 @@ def shard(ctx):
     from ..engines import realpar
     if hasattr(realpar, "c01_strategy"):
         ctx.hyp_run(realpar.c01_strategy(ctx), max_examples=ctx.pick(25, 400), label="real", shrink=False)
+        ctx.hyp_run(realpar.c01_stress_strategy(ctx), max_examples=ctx.pick(4, 40), label="stress", shrink=False)
